@@ -29,7 +29,7 @@ fn good_args(id: usize) -> &'static str {
     match id {
         2 => " 5", 4 => " -3", 6 => " ON", 7 => " 1,2,3", 8 => " -4,5", 9 => " 'hi'", 11 => " #13abc", 13 => " 1.5", 14 => " -2.25E1", 18 => " 1",
         22 => " #HFF", 23 => " -1,\"x\",OFF", 24 => " 7", 26 => " -1,2,-3",
-        36 => " 1,2,3,4,5,6,7,8,9,10", 37 => " 1.5,2", 38 => " 3", 39 => " -220", 42 => " 18446744073709551615",
+        36 => " 1,2,3,4,5,6,7,8,9,10", 37 => " 1.5,2", 38 => " 3", 39 => " -220", 42 => " 18446744073709551615", 43 => " -113", 44 => " 5,-5",
         _ => "",
     }
 }
@@ -223,6 +223,11 @@ fn g_responses(_seed: u64, emit0: Emit) {
             if y >= i64::MIN as i128 && y <= i64::MAX as i128 { if !emit(run(format!("MATH:MULT? {y},1;:MEAS:TRI? {},'z',1\n", (y % 128) as i8).into_bytes())) { return; } }
         }
         if *x <= 255 { if !emit(run(format!("SOUR:LEV {x};LEV?;:LEV?\n").into_bytes())) { return; } }
+    }
+    // an Error value as response data, for every standard number
+    for n in -420i32..=60 { if !emit(run(format!("ERR:VAL? {n}\n").into_bytes())) { return; } }
+    for (a, b) in [("0", "0"), ("18446744073709551615", "-9223372036854775808"), ("18446744073709551616", "0"), ("1", "9223372036854775808"), ("#HFFFFFFFFFFFFFFFF", "9223372036854775807")] {
+        if !emit(run(format!("MATH:SIZE? {a},{b}\n").into_bytes())) { return; }
     }
     let alpha: [&[u8]; 7] = [b"a", b"\"", b"'", b";", b",", b"\xc3\xa9", b" "];
     for a in 0..alpha.len() { for b in 0..=alpha.len() { for c in 0..=alpha.len() {
@@ -598,11 +603,11 @@ fn g_finality(seed: u64, emit: Emit) {
 
 pub const FAMILIES: &[Family] = &[
     Family { name: "headers", props: &["C01"], kinds: &["handler", "error", "panic", "hang"], gen: g_headers,
-        bound: "interface T2 (43 declarations + 3 requested standard commands): every allowed spelling x 3 letter cases x relative/absolute; per level every cut between short and long form, two extensions, level dropped / doubled / appended; query mark toggled; 8 undeclared standard headers" },
+        bound: "interface T2 (45 declarations + 3 requested standard commands): every allowed spelling x 3 letter cases x relative/absolute; per level every cut between short and long form, two extensions, level dropped / doubled / appended; query mark toggled; 8 undeclared standard headers" },
     Family { name: "compound", props: &["C02"], kinds: &["handler", "flush", "error", "panic", "hang"], gen: g_compound,
         bound: "every message of 1..=3 units from a pool of 30 (27 930 messages), the 1- and 2-unit ones also after 5 different preceding messages and with a trailing ';'; thorough tier: also every message of 4 units from 14 of them" },
     Family { name: "args", props: &["C03"], kinds: &["args", "handler", "error", "panic", "hang"], gen: g_args,
-        bound: "4 single-integer handlers x 278 literals; 6 multi-parameter patterns x 278 x 5; 22 boolean, 14 string, 12 block, 33 real literals; parameter counts 0..=12 for all 46 declarations" },
+        bound: "4 single-integer handlers x 278 literals; 6 multi-parameter patterns x 278 x 5; 22 boolean, 14 string, 12 block, 33 real literals; parameter counts 0..=12 for all 48 declarations" },
     Family { name: "responses", props: &["C04"], kinds: &["response", "flush", "writer", "panic", "hang"], gen: g_responses,
         bound: "31 queries alone and in compound messages; ~900 integers (powers of 10 and 2 and neighbours, zero digit groups, type bounds) echoed as u64 / i64 / i8 / u8; strings / blocks of every 1..=3 element combination of {a \" ' ; , e-acute SP}; payload lengths 0..=1000; 39 real literals echoed as f32 and f64, 5 special-value sets; logging writer vs std Vec writer vs heapless writers of 64 and 1024 bytes" },
     Family { name: "robust", props: &["C05"], kinds: &["panic", "hang"], gen: g_robust,
